@@ -561,7 +561,9 @@ func (c *VirtualTable) Insert(ctx context.Context, values map[int]interface{}) (
 	if err != nil {
 		return 0, fmt.Errorf("get: %w", err)
 	}
-	if ok && (!old.Deleted || !ot.Add(old.DeleteUpdateOffset.AsDuration()).Before(t)) {
+	if ok && (!old.Deleted || ot.Add(old.DeleteUpdateOffset.AsDuration()).After(t)) {
+		// (a row deleted at this very write time, e.g. earlier in the same
+		// transaction, can be inserted again)
 		return 0, ErrS3DBConstraintPrimaryKey
 	}
 	new.ColumnValues = make(map[string]*v1proto.ColumnValue)
@@ -732,7 +734,9 @@ func MergeRows(_ interface{},
 			if !hideDeletedValue(t1, v1, resetValuesBefore) {
 				res.ColumnValues[k] = adj(t1, v1, outTime)
 			}
-		case UpdateTime(t1, v1).Before(UpdateTime(t2, v2)):
+		case !UpdateTime(t2, v2).Before(UpdateTime(t1, v1)):
+			// on equal times the second row wins: for local writes that is
+			// the later statement of the same transaction (one write time)
 			if !hideDeletedValue(t2, v2, resetValuesBefore) {
 				res.ColumnValues[k] = adj(t2, v2, outTime)
 			}
